@@ -202,6 +202,18 @@ def _num(x):
     return None
 
 
+def tg_cancellation_atol(mu, sigma):
+    """absolute error that IEEE arithmetic leaves in a truncated-Gaussian log-density evaluated through
+    log(1 + erf(mu / (sigma sqrt 2))): the sum loses |eps / Phi(mu/sigma)| per individual and dimension when the
+    mean lies several sigma below the truncation point. Two correct implementations (numpy/scipy and the Lean
+    Float model) differ by this much there; the real-number statement is untouched."""
+    from scipy.special import ndtr
+    mu, sigma = np.asarray(mu, float), np.asarray(sigma, float)
+    with np.errstate(all='ignore'):
+        r = np.where(sigma > 0, mu / sigma, 0.0)
+        return float(np.sum(16 * 2.3e-16 / np.maximum(ndtr(r), 1e-300)))
+
+
 def jsonable(x):
     if isinstance(x, np.ndarray):
         return jsonable(x.tolist())
